@@ -31,6 +31,31 @@ SUP.append(["CREATE TABLE g1 (a int NOT NULL);", "GO", "CREATE TABLE g2 (b int, 
 SUP.append(["CREATE TABLE l1 (a varchar(9) DEFAULT 'n/a)', b varchar(9) COMMENT 'smile :)', c int DEFAULT 1);",
             "CREATE TABLE l2 (d varchar(9) DEFAULT ':(', e varchar(20) DEFAULT 'drop table x');"])
 SUP.append(["CREATE TABLE m1 (id int)", "CREATE TABLE m2 (id int, n varchar(5));"])  # only the first statement lacks its ';'
+# wave 7: ALTER / INDEX statements that spell their table in another letter case than its CREATE (both settings must route them alike)
+SUP.append(["CREATE TABLE Customers (id int, n varchar(5));", "ALTER TABLE customers ADD UNIQUE (id);", "CREATE INDEX ci ON CUSTOMERS (n);",
+            'ALTER TABLE "Customers" ADD CONSTRAINT ck CHECK (id > 0);'])
+
+
+def big_script(k, nosemi, kind):
+    """a statement of at least 2**k characters (a table of many columns, or an unsupported multi-row INSERT) between two small tables,
+    with or without ';' terminators -> (ddl, number of tables expected)"""
+    size = 2 ** k
+    if kind == "table":
+        cols, i = [], 0
+        while sum(len(c) + 2 for c in cols) < size:
+            cols.append("column_number_%d varchar(%d) NOT NULL DEFAULT 'v%d'" % (i, 10 + i % 90, i))
+            i += 1
+        big, n = "CREATE TABLE big_t (%s)" % ", ".join(cols), 3
+    else:
+        rows, i = [], 0
+        while sum(len(r) + 2 for r in rows) < size:
+            rows.append("(%d, 'name %d', %d)" % (i, i, i * 7))
+            i += 1
+        big, n = "INSERT INTO big_t (a, b, c) VALUES\n" + ",\n".join(rows), 2
+    parts = ["CREATE TABLE first_t (a int, b int)", big, "CREATE TABLE last_t (z int)"]
+    return ("\n".join(parts) if nosemi else ";\n".join(parts) + ";"), n
+
+
 PRE = ["INSERT INTO t1 VALUES (1, 'x');", "GRANT SELECT ON t1 TO joe;", "USE db1;", "GO", "DELETE FROM t1;",
        # the same classes in lower case and spread over several lines
        "insert into t1 values (1, 'x');", "grant select on t1 to joe;", "use db1;", "go", "delete from t1;",
@@ -109,6 +134,11 @@ def gen_cases(tier):
         if tag == "ignored":
             continue  # statements the grammar rejects on purpose (silently dropped): not "supported DDL"
         cases.append({"kind": "gen", "ddl": ddl, "mode": (modes if tier != "thorough" else ALL_MODES)[n % (len(modes) if tier != "thorough" else len(ALL_MODES))]})
+    # scale sweep: one statement of 1 KiB .. 128 KiB (thorough 1 MiB) - a supported table or an unsupported multi-row INSERT - between two tables
+    for k in range(10, (21 if tier == "thorough" else 18)):
+        for nosemi in (False, True):
+            for kind in ("table", "insert"):
+                cases.append({"kind": "big", "heavy": True, "k": k, "nosemi": nosemi, "what": kind, "mode": "sql"})
     for ri in range(len(ROBUST)):
         for si in range(len(SUP)):
             for where in ("before", "after"):
@@ -164,6 +194,24 @@ def evaluate(case):
                     if bad or not isinstance(e.get("alter", {}), dict):
                         diffs.append(diff("table entry %r" % e.get("table_name"), "table-entry-shape", "lists / dict", {k: e.get(k) for k in bad + ["alter"]}))
         return {"diffs": diffs, "nontrivial": True, "outcome": "robust:" + l[0]}
+    if k == "big":
+        ddl, n = big_script(case["k"], case["nosemi"], case["what"])
+        s = run_ddl(ddl, {"silent": True}, {"output_mode": case["mode"]})
+        l = run_ddl(ddl, {"silent": False}, {"output_mode": case["mode"]})
+        if s[0] != "ok":
+            diffs.append(diff("silent=True", "silent-raises", "no exception", s[1:3]))
+        elif [e.get("table_name") for e in entities(s[1])] != (["first_t", "big_t", "last_t"] if n == 3 else ["first_t", "last_t"]):
+            diffs.append(diff("silent=True result of the big script", "silent-result-differs", n, short([e.get("table_name") for e in entities(s[1])])))
+        if case["what"] == "table":
+            if l[0] != "ok":
+                diffs.append(diff("supported script, silent=False", "supported-raises", "no exception", l[1:3]))
+            elif s != l:
+                diffs.append(diff("silent vs loud", "silent-loud-differ", short(s), short(l)))
+        elif l[0] == "ok" and s != l:
+            diffs.append(diff("silent vs loud", "silent-loud-differ", short(s), short(l)))
+        elif l[0] != "ok" and not (l[1] == "DDLParserError" and l[3]):
+            diffs.append(diff("silent=False", "loud-wrong-exception", "DDLParserError or same result", short(l)))
+        return {"diffs": diffs, "nontrivial": True, "outcome": "big:" + l[0]}
     if k in ("sup", "gen"):
         ddl = case["ddl"] if k == "gen" else script(case)
         s = run_ddl(ddl, {"silent": True}, {"output_mode": case["mode"]})
@@ -228,6 +276,9 @@ def snippet(case):
         return _snip("\n".join([ROBUST[case["r"]]] + lines if case["where"] == "before" else lines + [ROBUST[case["r"]]]), {"silent": True}, {"output_mode": case["mode"]})
     if case["kind"] == "corpus":
         return _snip(case["ddl"], dict(case["ctor"], silent=False), {"output_mode": case["mode"]})
+    if case["kind"] == "big":
+        return ("from mc.props.c16 import big_script  # (run from /verif)\nddl = big_script(%d, %r, %r)[0]\n" % (case["k"], case["nosemi"], case["what"])
+                + "# DDLParser(ddl, silent=False).run() and DDLParser(ddl, silent=True).run()\n")
     if case["kind"] == "gen":
         return _snip(case["ddl"], {"silent": False}, {"output_mode": case["mode"]}) + "# and with silent=True\n"
     return _snip("CREATE TABLE t (a int);", {}, {"output_mode": case["mode"]})
